@@ -6,6 +6,55 @@ TRUST = ('Trusted: Coq 8.16.1 kernel; no axioms (Print Assumptions must be close
          'the Python harness and CPython 3.12.1. ')
 
 CHECKS = {
+    'C01': dict(
+        ref='5.1',
+        text='Theorems in coq/Properties/C01.v: for all strings over the allowed characters compare_strings of the Gallina '
+             'model equals the key order of Spec/Dpkg.v (non-digit runs ranked tilde < end < letters < others, digit runs by '
+             'value), proved by induction on fuel with no bound on lengths or digit-run sizes; compare_versions on any two '
+             'accepted strings is the lexicographic order of (epoch, upstream key, revision key) and never raises. The '
+             'transcription of dpkg verrevcmp (Spec/Dpkg.v) is co-executed with the model, with the key order and with the '
+             'dpkg binary on every run; its equivalence with the key order is not yet a theorem (partial). The model is '
+             'co-executed with version.py on the whole 68x68 rank table, all pairs of strings of length <=2/3 over a 9-character '
+             'representative alphabet and structured random pairs.',
+        note=TRUST + 'Spec: transcription of dpkg lib/dpkg/version.c (validated against /usr/bin/dpkg when present). '
+             'Modelled, not verified: str.isdigit/int() tables (swept on all code points each run).',
+        technique='Rocq proof (induction) over a Gallina model + exhaustive/differential co-execution against the Python code and dpkg',
+    ),
+    'C02': dict(
+        ref='5.2',
+        text='Theorems in coq/Properties/C02.v, for all versions whose components hold allowed characters (which every '
+             'parsed version satisfies, proved): three-way result in {-1,0,1}, antisymmetry, reflexivity, transitivity incl. '
+             'through order-equal versions and strictness, the operator table for < <= > >= and << <= < = >= > >>, ValueError '
+             'for unknown operators, trichotomy, == implies order-equal and equal hash, and: a list with no adjacent inversion '
+             'is non-decreasing at every pair. Derived from the proved key order by a small algebra of total-preorder '
+             'comparisons (lexicographic pairs, padded lexicographic lists). The model is co-executed with version.py on '
+             'operators/constraints, and the laws are evaluated on the implementation on pairs, triples and sorted() lists.',
+        note=TRUST + 'Environment premise (not an axiom): Python sorted()/max()/min() return a permutation with no adjacent '
+             'pair inverted under __lt__ when __lt__ is a strict weak order (checked on every run on generated lists).',
+        technique='Rocq proof over a Gallina model + differential co-execution and law checking against the Python code',
+    ),
+    'C03': dict(
+        ref='5.3',
+        text='Theorems in coq/Properties/C03.v for all strings: accepted only if policy-valid (Spec/Policy.v) after trimming; '
+             'policy-valid strings whose revision (or upstream when there is none) ends in an alphanumeric are accepted; '
+             'rejection is ValueError and nothing else; the decomposition is dpkg\'s split (first colon, last hyphen, '
+             'defaults 0 and "0"). The recogniser model is co-executed with Version.from_string and with the compiled pattern '
+             'object on all strings of length <=5/6 over a 13-character representative alphabet, every code point at four '
+             'positions (thorough) and grammar-driven accepted/rejected strings.',
+        note=TRUST + 'Outside the model: CPython\'s 4300-digit limit of int(str) for epochs.',
+        technique='Rocq proof over a Gallina model + small-scope exhaustive co-execution against the compiled regex and from_string',
+    ),
+    'C04': dict(
+        ref='5.4',
+        text='Theorems in coq/Properties/C04.v for every accepted string: parsing the printed form gives the same '
+             '(epoch, upstream, revision); printing is idempotent; the printed form is the normalised epoch, the upstream and '
+             'the revision, which is omitted only when it is "0", the upstream has no hyphen and ends in an alphanumeric; '
+             'decimal printing of the epoch has no leading zeros and reads back. Model co-executed with version.py on '
+             'grammar-driven strings, all zero-epoch x hyphenated-upstream x zero-revision combinations and all strings of '
+             'length <=6/7 over 0 1 a - : . ~.',
+        note=TRUST,
+        technique='Rocq proof over a Gallina model + differential co-execution against the Python code',
+    ),
     'C20': dict(
         ref='5.20',
         text='Theorems in coq/Properties/C20.v, proved for all texts by induction over the line list of the Gallina '
